@@ -29,7 +29,12 @@ def forests() -> list[tuple[list[Any], list[list[tuple]]]]:
         ([R("LMix", {"v": 0}, first=L(1), items=(L(2), L(3)), one=L(4)), L(2)], [[[], [("first", None)], [("items", 1)], [("one", None)]], [[]]]),
         ([R("LList", elems=[L(1), R("LOpt", one=L(2))]), R("LOpt", one=None)], [[[], [("elems", 0)], [("elems", 1)], [("elems", 1), ("one", None)]], [[]]]),
         ([R("LNarrow", only=L(1)), R("LTup", items=(L(2),))], [[[], [("only", None)]], [[], [("items", 0)]]]),
+        # nodes that are falsy in a boolean context (used by the `falsy-nodes` families only)
+        ([R("LTup", items=(R("LFalsy", {"v": 1}), R("LOpt", one=R("LFalsy", {"v": 2})))), R("LFalsy", {"v": 3}), L(4)], [[[], [("items", 0)], [("items", 1)], [("items", 1), ("one", None)]], [[]], [[]]]),
     ]
+
+
+FALSY_FOREST = 4
 
 
 def _kids(n: Any) -> list[tuple[Any, str, int | None]]:
@@ -425,6 +430,11 @@ DETACHED_WRAPS = ["wrap-detached-tuple", "wrap-detached-required"]
 REJECT_LATER = ["replace-property", "attach", "duplicate", "replace_with-None"]
 
 
+# C19, guided: a detached clone carrying the id of its original, then constructions over both
+CLONE_LATER = ["detach", "wrap-pair", "replace-child", "attach", "replace_with"]
+CLONE_LATER_QUICK = ["detach", "wrap-pair", "replace-child"]
+
+
 THIRD_OPS = ["attach", "detach", "detach_self", "replace_with-None", "replace-property", "replace-noop", "duplicate", "transform-remove-even", "transformer-inc"]
 
 
@@ -435,7 +445,7 @@ def make_harness(K: int, which: str, first_ops: list[str] | None = None, later_o
         from models.zoo import node_at
 
         LZ.lreset()
-        fno = forest if forest is not None else e.choice(len(FORESTS), "forest")
+        fno = forest if forest is not None else e.choice(FALSY_FOREST, "forest")
         recipes, designated = FORESTS[fno]
         roots = [LZ.lbuild(r) for r in recipes]
         handles: list[Any] = []
